@@ -50,6 +50,8 @@ pub struct ExecInfo {
     pub io_in: usize,
     pub max_nest: usize,
     pub unbalanced_ret: bool,
+    /// the injected fault happens while a subroutine frame is open (a JSR without its RET precedes it)
+    pub fault_in_open_frame: bool,
 }
 
 #[derive(Clone, Debug)]
@@ -323,6 +325,13 @@ fn gen_exec_inner(t: &mut Tape, cfg: &ExecCfg) -> Option<ExecProg> {
     } else {
         Ending::Halt
     };
+    if ending != Ending::Halt && g.t.chance(1, 2) {
+        // the fault happens inside a call: JSR to the next instruction opens a frame that is never closed
+        let l = g.label();
+        main.push(Item::Jsr(l));
+        main.push(Item::Label(l));
+        g.info.fault_in_open_frame = true;
+    }
     match ending {
         Ending::Halt => main.push(Item::I(MInstr::Trap { vect: 0x25 })),
         Ending::AcvLoad => {
